@@ -114,6 +114,20 @@ def decide(spec, tier, seed):
                          "correspondence check is the only tie for that code on this run, so it is run at the thorough size "
                          "(for the calendars: the whole day-number domain of the property)" % ", ".join(sorted(ties["not_established"])))
             stream_tier = "wide" if getattr(spec, "supports_wide", False) else "thorough"
+            # which calendar configurations the broken tie proofs are about (file names in the error lines); anything
+            # else (the shared lemmas, the generated file itself) means all of them
+            which = {"Julian": ["jul"], "Jalali": ["jal33", "jal2820"], "Ethiopian": ["eth"], "Proleptic": ["gprol"],
+                     "Indian": ["ind"], "Hijri": ["hij-a", "hij-t"]}
+            cfgs, unknown = set(), False
+            for f in ties.get("broken_files", []) or ["?"]:
+                m = re.match(r"Starcal/SrcTie/(\w+)\.lean$", f)
+                if m and m.group(1) in which:
+                    cfgs.update(which[m.group(1)])
+                elif m and m.group(1) in ("Cal", "All"):
+                    pass    # they only collect the per-package theorems
+                else:
+                    unknown = True
+            spec.wide_cfgs = None if (unknown or not cfgs) else sorted(cfgs)
         log("[%s] source ties: %d modules established, %d not" % (pid, len(ties["established"]), len(ties["not_established"])))
 
     # correspondence + direct evaluation of the property on the real code
@@ -302,7 +316,7 @@ def decide(spec, tier, seed):
                         "about the translated code itself. A module under not_established no longer checks against today's source: no alarm by "
                         "itself, the correspondence streams of this run were widened to the thorough size instead.",
                 "translated_functions": ties["translated_functions"],
-                "established": ties["established"], "not_established": ties["not_established"]} if ties else None),
+                "established": ties["established"], "not_established": ties["not_established"], "broken_files": ties.get("broken_files", [])} if ties else None),
             "known_findings_seen": {kid: n for kid, (k, n) in known_hits.items()},
             "broken": broken[:10],
             "notes": notes,
